@@ -24,7 +24,8 @@ LEVEL_NOTE = 'reference relation is written from the property statement and the 
 TECHNIQUE = 'static analysis: enum-domain abstract interpretation over enumerated paths (typestate) + must-pass-through'
 
 STATES = ['Init', 'Running', 'Suspended', 'Paused', 'Done']
-BODY_TAGS = ['StopStream', 'StopIteration', 'YieldAndReset', 'AlwaysYield', '*']
+# '*' = any other Exception; KeyboardInterrupt stands for the failures that are not Exception subclasses
+BODY_TAGS = ['StopStream', 'StopIteration', 'YieldAndReset', 'AlwaysYield', '*', 'KeyboardInterrupt']
 
 # documented relation: method -> entry state -> set of (exit state, outcome)
 REF = {
@@ -40,8 +41,10 @@ REF = {
               'Paused': {('Init', 'return')}, 'Done': {('Init', 'return')}},
     'next': {'Paused': {('Paused', 'raise PausedStream')},
              'Done': {('Done', 'raise StopStream'), ('Done', 'return')},
-             'Init': {('Suspended', 'return'), ('Done', 'raise StopStream'), ('Init', 'return'), ('Done', 'return'), ('Done', 'raise *')},
-             'Suspended': {('Suspended', 'return'), ('Done', 'raise StopStream'), ('Init', 'return'), ('Done', 'return'), ('Done', 'raise *')}},
+             'Init': {('Suspended', 'return'), ('Done', 'raise StopStream'), ('Init', 'return'), ('Done', 'return'), ('Done', 'raise *'),
+                      ('Done', 'raise KeyboardInterrupt')},
+             'Suspended': {('Suspended', 'return'), ('Done', 'raise StopStream'), ('Init', 'return'), ('Done', 'return'), ('Done', 'raise *'),
+                           ('Done', 'raise KeyboardInterrupt')}},
 }
 
 
@@ -337,6 +340,8 @@ def run(ctx):
 
 
 MUTANTS = [
+    dict(rule='C11.fsm', name='failure arm narrowed to Exception (seed C11-c)', file='sc3/base/stream.py',
+         old="            except:\n                self.state = self.State.Done  # Failure.", new="            except Exception:\n                self.state = self.State.Done  # Failure."),
     dict(rule='C11.fsm', name='pause from Done becomes Paused', file='sc3/base/stream.py',
          old="            if self.state == self.State.Init\\\n            or self.state == self.State.Suspended:\n                self.state = self.State.Paused",
          new="            if self.state != self.State.Paused:\n                self.state = self.State.Paused"),
